@@ -98,13 +98,14 @@ func newCShared() *cShared {
 	return sh
 }
 
-const cNumOps = 23
+const cNumOps = 24
 
 var cOpNames = [cNumOps]string{"ed.Sign", "ed.Verify", "ed.VerifyExpanded(shared key)", "cache.Verifier.Verify(shared)", "ed.Batch(shared expanded keys)",
 	"x25519.X25519(Basepoint)", "sr.Sign+Verify(shared ctx,keypair)", "ecvrf.Prove+Verify", "h2c.XOF(shared shake)", "ed.Sign(hedged,selfverify)",
 	"ed.NewKeyFromSeed", "x25519.EdKeyConversions", "curve.MulBasepoint(shared user table)", "curve.ExpandedDoubleScalarMul(shared)", "ristretto.MulBasepoint+Expanded(shared)",
 	"merlin.Clone(shared origin)", "sr.Batch(shared keys)", "x25519.DH(shared keys)", "curve.MultiscalarMulVartime(package tables)", "h2c.XMD+ristretto",
-	"ed.Sign(hedged, entropy reader fails)", "curve.MultiscalarMulVartime(>=190 terms: Pippenger)", "ed.VerifyBatchOnly(>=95 entries: Pippenger)"}
+	"ed.Sign(hedged, entropy reader fails)", "curve.MultiscalarMulVartime(>=190 terms: Pippenger)", "ed.VerifyBatchOnly(>=95 entries: Pippenger)",
+	"default entropy (nil readers): GenerateKey, hedged Sign, batch Verify"}
 
 func scal(i int) *scalar.Scalar {
 	d := sha512.Sum512([]byte{'s', byte(i), byte(i >> 8)})
@@ -280,6 +281,24 @@ func (sh *cShared) op(kind, i int) []byte {
 			}
 		}
 		return []byte{bb(v.VerifyBatchOnly(NewDetReader(uint64(i))))}
+	case 23:
+		// The default-entropy path (rand == nil -> the system source) is shared package state too.
+		// The random bytes themselves never reach the log: only facts that hold for every entropy.
+		pub, priv, err := ed25519.GenerateKey(nil)
+		out := []byte{bb(err == nil && len(pub) == 32 && len(priv) == 64)}
+		s, err := sh.priv[k].Sign(nil, sh.msgs[k], &ed25519.Options{AddedRandomness: true})
+		out = append(out, bb(err == nil && ed25519.Verify(sh.pub[k], sh.msgs[k], s)))
+		v := ed25519.NewBatchVerifier()
+		v.Add(sh.pub[k], sh.msgs[k], sh.sigs[k])
+		v.AddExpanded(sh.exp[(k+1)%cNumKeys], sh.msgs[(k+1)%cNumKeys], sh.sigs[(k+1)%cNumKeys])
+		ok, _ := v.Verify(nil)
+		out = append(out, bb(ok), bb(v.VerifyBatchOnly(nil)))
+		sv := sr25519.NewBatchVerifier()
+		sv.Add(sh.spk, sh.sctx.NewTranscriptBytes(sh.msgs[k]), sh.ssigs[k])
+		sok, _ := sv.Verify(nil)
+		ssig, serr := sh.skp.Sign(nil, sh.sctx.NewTranscriptBytes(sh.msgs[k]))
+		out = append(out, bb(sok), bb(serr == nil && sh.spk.Verify(sh.sctx.NewTranscriptBytes(sh.msgs[k]), ssig)))
+		return out
 	case 20:
 		// a fault in one call must not poison later calls: the reader fails after i%32 bytes
 		s, err := sh.priv[k].Sign(&failingReader{left: i % 32}, sh.msgs[k], &ed25519.Options{AddedRandomness: true, Context: "ctx"})
